@@ -808,20 +808,51 @@ class Engine:
                 return self.alloc(st, V(av.t, [z3.SetDifference(A, B)]))
         raise Unsupported(f"binary op on {av} and {bv}")
 
+    def narrow_names(self, st, test, truth=True):
+        """Type narrowing: on a path where `x is not None` holds (a conjunct of the test when it is
+        true; `x is None` / a disjunct when the test is false) an Optional local x is its value.
+        Returns {name: previous binding} for the names it rebinds (the condition itself is already
+        on the path condition, so this only changes the static type)."""
+        saved = {}
+
+        def conj(t, want):
+            if isinstance(t, ast.BoolOp) and ((isinstance(t.op, ast.And) and want) or (isinstance(t.op, ast.Or) and not want)):
+                for x in t.values:
+                    conj(x, want)
+            elif isinstance(t, ast.UnaryOp) and isinstance(t.op, ast.Not):
+                conj(t.operand, not want)
+            elif (isinstance(t, ast.Compare) and len(t.ops) == 1 and isinstance(t.left, ast.Name) and isinstance(t.comparators[0], ast.Constant)
+                  and t.comparators[0].value is None and isinstance(t.ops[0], ast.IsNot if want else ast.Is)):
+                n = t.left.id
+                cur = st.vars.get(n)
+                if n not in self.bound and isinstance(cur, V) and isinstance(cur.t, Ty.Opt) and n not in saved:
+                    saved[n] = cur
+                    inner = V(cur.t.t, cur.c[1:])
+                    st.vars[n] = self.box(st, inner)
+
+        conj(test, truth)
+        return saved
+
     def e_BoolOp(self, st, node):
         # short-circuit: operand k is evaluated under the guard that the
         # previous operands did not decide the result (so safety obligations
         # inside it are conditional, as in Python)
         ts = []
         npc = len(st.pc)
+        saved = {}
         try:
             for vnode in node.values:
                 v = self.eval(st, vnode)
                 t = self.truth(st, v)
                 ts.append(t)
                 st.pc.append(t if isinstance(node.op, ast.And) else z3.Not(t))
+                # later operands see `x is not None` (and) / not `x is None` (or) of the earlier ones
+                for n_, old_ in self.narrow_names(st, vnode, isinstance(node.op, ast.And)).items():
+                    saved.setdefault(n_, old_)
         finally:
             del st.pc[npc:]
+            for n_, old_ in saved.items():
+                st.vars[n_] = old_
         # NB: operands are evaluated eagerly; fine for the pure, total
         # expressions of the subset (safety obligations inside an operand are
         # guarded below by evaluating them under the short-circuit condition)
@@ -1631,6 +1662,7 @@ class Engine:
             return self.exec_block(st, stmt.orelse)
         c = self.truth(st, self.eval(st, stmt.test))
         b = self.concrete_bool(st, c)
+        self.narrow_names(st, stmt.test, bool(b))
         return self.exec_block(st, stmt.body if b else stmt.orelse)
 
     def s_Try(self, st, stmt):
